@@ -8,7 +8,7 @@ G="${1:-/tmp/out2-C*/[CDE]}"
 cd /verif
 for src in $(ls -d $G 2>/dev/null); do
   [ -f $src/patch.diff ] || continue
-  prop=$(basename $(dirname $src) | sed 's/out16-//;s/out14-//;s/out11-//; s/out9-//; s/out7-//; s/out5-//; s/out2-//; s/out-//')
+  prop=$(basename $(dirname $src) | sed 's/out18-//;s/out16-//;s/out14-//;s/out11-//; s/out9-//; s/out7-//; s/out5-//; s/out2-//; s/out-//')
   v=$(basename $src)
   id="$prop$v"
   mkdir -p seeded/$id
